@@ -3,6 +3,7 @@ import re
 
 from core import Property, Stream, enc, dec, enc_list, dec_list
 import textcorr
+import pystr
 from textcorr import impl_search, YEARS
 
 SPLITLINES_BREAKS = "\n\r\x0b\x0c\x1c\x1d\x1e\x85  "
@@ -214,6 +215,77 @@ class MergeOracleStream(Stream):
         return {"lines": case["lines"]}
 
 
+class MergeCoverageStream(Stream):
+    """Merging never loses a stated year, however the year was written.  The oracle does not use the tool's reader: a
+    notice is prefix + years + holder by construction, and afterwards every four-digit year of every input notice must
+    lie within the span of years of some output line that still names that holder."""
+    name = "mergecoverage"
+    rule = ("merge_copyright_lines on sets of 2-4 notices of one or two holders where one notice writes its years in a form the "
+            "year parser may or may not understand (en dash, em dash, slash, comma list, 'to', two-digit end, spaces around the dash, "
+            "trailing comma); oracle (reader-independent): every four-digit year of every input notice lies within the span of the "
+            "four-digit years of an output line that contains the holder's name; non-trivial = distinct input set")
+    FORMS = ["2016–2018", "2016—2018", "2016/2018", "2016, 2018", "2016,2018", "2016 to 2018", "2016-18", "2016 - 2018", "2016-2018",
+             "2016 -2018", "2016- 2018", "2016,", "2016-2018,", "2016 – 2018", "2016‑2018", "２０１６"]
+    HOLD = ["Jane Doe", "ACME Inc.", "José Álvarez"]
+
+    def cases(self, tier, rng):
+        from reuse.copyright import _COPYRIGHT_PREFIXES
+        prefs = list(_COPYRIGHT_PREFIXES.values())
+        for form in self.FORMS:
+            for _ in range(40 if tier == "thorough" else 6):
+                h = rng.choice(self.HOLD)
+                truth = [(rng.choice(prefs), form, h)]
+                for _ in range(rng.randint(1, 3)):
+                    truth.append((rng.choice(prefs), rng.choice(["2021", "2010", "2019-2023", "1999 - 2001", None]),
+                                  h if rng.random() < 0.8 else rng.choice(self.HOLD)))
+                lines = []
+                for p, y, hh in truth:
+                    l = "%s %s%s" % (p, (y + " ") if y else "", hh)
+                    if l not in lines:
+                        lines.append(l)
+                rng.shuffle(lines)
+                yield {"lines": lines, "truth": [list(t) for t in truth]}
+
+    def impl(self, case):
+        from reuse.copyright import merge_copyright_lines
+
+        class OrderedSet(list):
+            pass
+        return enc_list(sorted(merge_copyright_lines(OrderedSet(case["lines"]))))
+
+    def model_lines(self, case):
+        return ["merge\t" + enc_list(case["lines"])]
+
+    def model_out(self, case, outs):
+        return enc_list(sorted(dec_list(outs[0])))
+
+    def oracle(self, case, impl_out):
+        if impl_out.startswith("EXC"):
+            return "merge-crash: " + impl_out
+        out = dec_list(impl_out)
+        for p, y, h in case["truth"]:
+            years = [int(x) for x in re.findall(r"(?<!\d)\d{4}(?!\d)", y or "")]
+            named = [l for l in out if h in l]
+            if not named:
+                return "merge-holder-lost: holder %r of the input %r is in no output line %r" % (h, case["lines"], out)
+            for yr in years:
+                ok = False
+                for l in named:
+                    ys = [int(x) for x in re.findall(r"(?<!\d)\d{4}(?!\d)", l)]
+                    if ys and min(ys) <= yr <= max(ys):
+                        ok = True
+                if not ok:
+                    return "merge-year-lost: year %d stated for %r in %r is outside every output line naming the holder: %r" % (
+                        yr, h, case["lines"], out)
+        return None
+
+    def nontrivial(self, case, impl_out):
+        return tuple(case["lines"])
+
+    def show(self, case):
+        return {"lines": case["lines"]}
+
+
 class YearOptionStream(Stream):
     name = "years"
     exhaustive = True
@@ -250,7 +322,7 @@ class YearOptionStream(Stream):
 
 PROPERTY = Property(
     pid="C20",
-    streams=[textcorr.CSearchStream(), MakeParseStream(), TheoremStream(), textcorr.MergeStream(), MergeOracleStream(), YearOptionStream()],
+    streams=[textcorr.CSearchStream(), MakeParseStream(), TheoremStream(), textcorr.MergeStream(), MergeOracleStream(), MergeCoverageStream(), YearOptionStream()] + pystr.DIGIT_STREAMS,
     assumptions=[
         "CPython's re engine on the three copyright patterns is mirrored by Model.searchLine (prefix extension candidates in backtracking "
         "priority, greedy white space, year alternatives, lazy statement up to END) and compared on every run; END is generated from the source",
